@@ -204,11 +204,22 @@ def enc_case(s, ans):
 
 
 def arr_literal(cases):
-    """list of encoded cases -> Coq primitive-array literal of the batch"""
-    flat = [len(cases)]
+    """list of encoded cases -> Coq primitive-array literal of the batch: the numbers [len(cases)] + cases as LEB128 bytes,
+    7 bytes per 63-bit cell (least significant first), cell 0 = number of bytes"""
+    bs = bytearray()
+    def put(v):
+        while v >= 128:
+            bs.append((v & 127) | 128)
+            v >>= 7
+        bs.append(v)
+    put(len(cases))
     for c in cases:
-        flat.extend(c)
-    return "[| " + ";".join(map(str, flat)) + " | 0 |]"
+        for v in c:
+            put(v)
+    n = len(bs)
+    bs.extend(b"\0" * (-n % 7))
+    cells = [str(n)] + [str(int.from_bytes(bs[i:i + 7], "little")) for i in range(0, len(bs), 7)]
+    return "[| " + ";".join(cells) + " | 0 |]"
 
 
 # ---- python view of both sides (slow path: floats, and printing the model's answer for a replay)
@@ -390,19 +401,23 @@ RIGHT_TERMINATORS = ["", " ", "\t", "\n", "\r\n", "\r", ",", ")", "]", "}", ">",
 RIGHT_OTHERS = ["(", "()", ".", ".a", ":", ":a", "=", "=1", "==", "[", "[0]", "{", "|", "-", "-1", "+", "*", "/", "!", "<", ">=", "#c", "\\", "'", "''", "\"x\"", "`", "`a`", "1", "_", "_a", "a",
                 "$", "@", "?", "??", "&&", "||", "->", "=>", "\u00e9", ";", "~"]
 LEFT_SMALL = ["", "\n", "a ", "1 ", "(", "{a, ", "== ", "-", "| ", ".", "..", "a\n\\ ", "'s'", "} "]
-RIGHT_SMALL = ["", " ", "\n", ",", ")", "}", "..", "(", ".", "=", ":", " x"]
+RIGHT_SMALL = ["", " ", "\n", ",", ")", "..", "(", ".", "=", " x"]
 PREFIX_WORDS = ["r", "s", "f", "e", "x", "T", "Z"]      # letters that are part of literal syntax (r'..' s".." f".." 1e5 0x.. dates)
 
 
-def context_words(info):
-    """reserved and literal-like words of the CURRENT tables (keywords, true/false/null, units, literal prefixes), their
-    capitalised / upper-case spellings and one plain identifier as the control"""
+def context_words(info, full, rng):
+    """reserved and literal-like words of the CURRENT tables: every keyword, true/false/null and every letter that is part of literal
+    syntax, always; interval units and capitalised / upper-case spellings: all of them in the full family, a seeded sample
+    otherwise; plus plain identifiers as the control"""
     kws = list(info.get("keywords") or ["let", "into", "case", "prql", "type", "module", "internal", "func", "import", "enum"])
     lits = [info.get("true_word", "true"), info.get("false_word", "false"), info.get("null_word", "null")]
     units = list(info.get("units") or ["microseconds", "milliseconds", "seconds", "minutes", "hours", "days", "weeks", "months", "years"])
     based = [p for p, *_ in (info.get("based") or [("0b",), ("0x",), ("0o",)])]
-    ws = kws + lits + units + PREFIX_WORDS + [p[1:] for p in based if len(p) > 1]
-    ws += [w.capitalize() for w in kws + lits] + [w.upper() for w in lits] + ["a", "from", "select"]
+    caps = [w.capitalize() for w in kws + lits] + [w.upper() for w in lits]
+    if not full:
+        units = rng.sample(units, min(3, len(units)))
+        caps = rng.sample(caps, min(4, len(caps)))
+    ws = kws + lits + units + PREFIX_WORDS + [p[1:] for p in based if len(p) > 1] + caps + ["a", "from"]
     seen, out = set(), []
     for w in ws:
         if w and w not in seen:
